@@ -79,7 +79,7 @@ package keeper
 //@ axiom cntMono(s, j, k, h)
 //@   ensures 0 <= j && j <= k ==> CNT(s, j, h) <= CNT(s, k, h)
 // decimal formatting of a height is injective
-//@ define HKEY(h) = ufstr("sprintf_Int", "%d", h)
+//@ define HKEY(h) = ufstr("fmt_int", h)
 //@ axiom hkeyInj(a, b)
 //@   ensures HKEY(a) == HKEY(b) ==> a == b
 
